@@ -1,8 +1,8 @@
 #!/verif/.venv/bin/python
 # Replay of a solver counterexample against the unmodified code (no shims).
-# property=C17 kernel=device label=k2:device_fieldwise_equal
+# property=C17 kernel=config label=k3:config_roundtrip_completes
 import sys
-sys.path[:0] = ["/repo/pulser-core", "/repo/pulser-simulation", "/verif"]
+sys.path[:0] = ['/repo' + "/pulser-core", '/repo' + "/pulser-simulation", "/verif"]
 from symx.replay import replay
-sys.exit(replay(check='checks.c17', kernel='device', shape={'opt': ['dmm', 'total', 'mod'], 'virtual': True},
-                assignment={'clock': 1, 'mind': 2, 'maxd': 64, 'bw': '1/1', 'g_maxdet': '1/1', 'g_maxamp': '1/1', 'l_maxdet': '1/1', 'l_maxamp': '1/1', 'retarget': 0, 'fixedt': 0, 'bottom': '1/1', 'total': '1000/1', 'mindist': '0/1'}, label='k2:device_fieldwise_equal'))
+sys.exit(replay(check='checks.c17', kernel='config', shape={'obs': ['bitstrings'], 'times': [True], 'noise': 'eff'},
+                assignment={'o0_t0': '0/1', 'o0_t1': '1/2', 'eff_rate': '1152921504606847/1152921504606846976'}, label='k3:config_roundtrip_completes'))
